@@ -31,6 +31,18 @@ def _fresh(rng, used):
     return v
 
 
+def _recase(rng, text, prefix_too=True):
+    """Letter case is free in numeric literals: 0XFE, 0xfe, 0Xfe, 0B101, 0O17, 2.5E-3 (Rust: digits only, the prefix is lower case)."""
+    r = rng.random()
+    if r < 0.45:
+        return text
+    if r < 0.7:
+        return (text[:2].upper() + text[2:]) if prefix_too and text[:2].lower() in ("0x", "0o", "0b") else text.replace("e", "E") if text[:2].lower() != "0x" else text
+    if text[:2].lower() in ("0x", "0o", "0b"):
+        return (text[:2].upper() if prefix_too and r < 0.85 else text[:2]) + text[2:].upper()
+    return text.replace("e", "E")
+
+
 def py_literal(rng, used, forms=True):
     """-> (text, value)"""
     r = rng.random()
@@ -39,14 +51,14 @@ def py_literal(rng, used, forms=True):
         return str(v), v
     if r < 0.7:
         t = rng.choice(FLOATS)
-        return t, float(t)
+        return _recase(rng, t), float(t)
     v = _fresh(rng, used)
     if r < 0.8:
-        return hex(v), v
+        return _recase(rng, hex(v)), v
     if r < 0.85:
-        return oct(v), v
+        return _recase(rng, oct(v)), v
     if r < 0.9:
-        return bin(v), v
+        return _recase(rng, bin(v)), v
     if v >= 1000:
         s = str(v)
         return s[:-3] + "_" + s[-3:], v
@@ -198,16 +210,16 @@ def ts_literal(rng, used, forms=True):
         v = _fresh(rng, used)
         return str(v), v
     if r < 0.75:
-        t = rng.choice(["1.5", "2.75", "0.25", "3.14159", "99.9", "2.5e-3", "0.001"])
-        return t, float(t)
+        t = rng.choice(["1.5", "2.75", "0.25", "3.14159", "99.9", "2.5e-3", "0.001", "1e3", ".5"])
+        return _recase(rng, t), float(t)
     v = _fresh(rng, used)
     if r < 0.85:
-        h = hex(v)
-        return h, v
+        h = _recase(rng, hex(v))
+        return h + ("n" if rng.random() < 0.1 else ""), v
     if r < 0.9:
-        return "0o%o" % v, v
+        return _recase(rng, "0o%o" % v), v
     if r < 0.93:
-        return bin(v), v
+        return _recase(rng, bin(v)), v
     if r < 0.96:
         return "%dn" % v, v
     if v >= 1000:
@@ -312,7 +324,7 @@ def rs_literal(rng, used, forms=True):
         t = rng.choice(["2.5", "7.25"])
         return t + rng.choice(["", "_"]) + rng.choice(["f32", "f64"]), float(t)
     if r < 0.88:
-        return hex(v), v
+        return _recase(rng, hex(v), prefix_too=False), v
     if r < 0.91:
         h = rng.choice(["0x1f32", "0xaf64", "0x2f32", "0xbeef64", "0x7f32"])
         used.add(int(h, 16))
